@@ -112,6 +112,8 @@ theorem Steps.sig_left {a a' b : State} (h : sig a' = sig a) (h2 : Steps a' b) :
   unfold udpSendmsg; split; · rfl
   split; · rfl
   simp
+@[simp] theorem sig_pipeConnectBad (s : State) (id : Nat) : sig (pipeConnectBad s id) = sig s := by
+  unfold pipeConnectBad; simp only; rw [sig_ioFeed]; rfl
 @[simp] theorem sig_makeClosePending (s : State) (id : Nat) : sig (makeClosePending s id) = sig s := rfl
 @[simp] theorem sig_initInotify (s : State) : sig (initInotify s) = sig s := by
   unfold initInotify; split; · rfl
@@ -537,7 +539,9 @@ theorem applyOp_inv (s : State) (o : Op) (hi : SInv s) : SInv (applyOp s o).1 :=
           · split
             · exact illegal_inv hi
             · rename_i hc
-              exact (streamListen_steps s id (pre_of_getHF hg (by simpa using hc))).inv hi
+              have hc' : hClosing f = false := by
+                cases h' : hClosing f <;> simp_all
+              exact (streamListen_steps s id (pre_of_getHF hg hc')).inv hi
           · exact illegal_inv hi
     | stop id =>
       simp only
@@ -621,6 +625,14 @@ theorem applyOp_inv (s : State) (o : Op) (hi : SInv s) : SInv (applyOp s o).1 :=
       · exact illegal_inv hi
     | work => exact SInv.of_sig (s := s) (by simp [ok]) hi
     | workNull => exact hi
+    | reject api => simp only; split <;> first | exact hi | exact illegal_inv hi
+    | connectBad id =>
+      simp only
+      split
+      · split
+        · exact SInv.of_sig (s := s) (by simp [ok]) hi
+        · exact illegal_inv hi
+      · exact illegal_inv hi
     | udpSendBad id =>
       simp only
       split
